@@ -60,7 +60,14 @@ S7 == Scn(9007, Sig("i32", <<"i32">>, 255), <<Callee("i32", <<"i32">>, 255, "imm
           <<Arg(1, 1), Loop(2, <<Inv(1, <<V(1)>>, 2), Add(1, 2)>>), IfNz(1, <<Store(1)>>), Mov(2, 1)>>,
           2, 2, 3, <<<<3, 0, 1, 1>>>>)
 
-MCScenarios == {S1, S2, S3, S4, S5, S6, S7}
+Switch(v, cs) == [op |-> "switch", v |-> v, cases |-> cs]
+S8 == Scn(9008, Sig("i64", <<"i64", "f64">>, 255), <<Callee("i64", <<"f64", "i64">>, 255, "reg", 8)>>,
+          <<"i64", "f64", "i64">>,
+          <<Arg(1, 1), Arg(2, 2), Imm(3, <<5, 0, 0, 0>>),
+            Switch(1, << <<Inv(1, <<V(2), V(3)>>, 3)>>, <<AddI(3, <<1, 0, 0, 0>>), Inv(1, <<V(2), V(1)>>, 3), Store(1)>> >>), Store(3), Store(2)>>,
+          3, 3, 3, <<<<3, 0, 0, 0>>, D64(2)>>)
+
+MCScenarios == {S1, S2, S3, S4, S5, S6, S7, S8}
 MCSmall == {S1, S3, S6}
 MCOne == {S7}
 MCCov == {S7, S3}
